@@ -74,9 +74,40 @@ def gen_weights(gen, n):
     elif dist == "sparse_big":  # zero runs plus values that need direct coding
         w = rs.randint(-255, 256, size=n)
         w[rs.random_sample(n) < 0.85] = 0
+    elif dist.startswith("hole"):
+        # two lobes with a hole around zero: every non-zero weight has |w| >= width (pruned layers whose surviving
+        # weights are all large).  hole<W>[p][z]: p = 24 frequent values carry 80% of the mass (palette plus directly
+        # coded tail), z = zeros dominate (zero runs); always more than 32 distinct values when n allows
+        m = re.match(r"hole(\d+)(p?)(z?)$", dist)
+        width, skew, zeros = int(m.group(1)), bool(m.group(2)), bool(m.group(3))
+        mags = np.arange(width, 256)
+        vals = np.concatenate([mags, -mags])
+        if skew:
+            fav = rs.choice(vals, size=24, replace=False)
+            w = np.where(rs.random_sample(n) < 0.8, rs.choice(fav, size=n), rs.choice(vals, size=n))
+        else:
+            w = rs.choice(vals, size=n)
+        if zeros:
+            w = np.where(rs.random_sample(n) < 0.87, 0, w)
     else:
         raise ValueError("unknown distribution %r" % dist)
     return np.asarray(w).astype(np.int16)
+
+
+def request_weights(job):
+    """The numerical weights of a request (int64): literal or generated, made non-negative for unsigned element
+    types, with the poked (out-of-range) values put in."""
+    cfg = job.get("cfg")
+    if "w" in job:
+        w = np.asarray(job["w"], dtype=np.int64)
+    else:
+        n = cfg["od"] * cfg["kh"] * cfg["kw"] * cfg["id"] if cfg else job["n"]
+        w = gen_weights(job["gen"], n).astype(np.int64)
+    if np.dtype(job.get("dtype", "int16")).kind == "u":
+        w = np.abs(w)
+    for pos, val in job.get("poke", ()):
+        w[pos % w.size] = val
+    return w
 
 
 class Verbose:
@@ -184,14 +215,16 @@ def main(so, jobs_path, out_path):
             continue
         # single request: literal or generated weights
         cfg = job.get("cfg")
-        if "w" in job:
-            w = np.asarray(job["w"], dtype=np.int64)
-        else:
-            n = cfg["od"] * cfg["kh"] * cfg["kw"] * cfg["id"] if cfg else job["n"]
-            w = gen_weights(job["gen"], n)
+        w = request_weights(job)
         verbose = 1 if job.get("modes") else 0
         if cfg:
-            vol = w.astype(np.int16).reshape(cfg["od"], cfg["kh"], cfg["kw"], cfg["id"])
+            # element type of the array handed to the API: int16 unless the request says otherwise; values are never
+            # narrowed here (an out-of-range request must reach the API as it is)
+            dt = np.dtype(job.get("dtype", "int16"))
+            info = np.iinfo(dt)
+            if w.min() < info.min or w.max() > info.max:
+                raise ValueError("request %s: value not representable in %s" % (job["id"], dt))
+            vol = w.astype(dt).reshape(cfg["od"], cfg["kh"], cfg["kw"], cfg["id"])
             oc, e = enc_vol(cfg, vol, verbose)
         else:
             oc, e = enc_raw(w.tolist(), verbose)
